@@ -525,7 +525,15 @@ func multiRules(c *an.Ctx) {
 						return true
 					}
 					if call, ok := rhs.(*ast.CallExpr); ok && an.IsCallTo(info, call, "builtin.append") {
-						if p.FieldKey(info, call.Args[0]) == "multi.Multi.loaders" {
+						snapshot := false
+						for _, a := range call.Args[1:] {
+							if p.FieldKey(info, a) == "multi.Multi.loaders" {
+								snapshot = true
+							}
+						}
+						if snapshot {
+							c.Bad("C19.multi", key+"/append", ps.Pos(), nil, "the contents of another multi loader's list are copied into this one (%s): the nested loader is no longer asked itself, so loaders added to or removed from it later are not seen — the answer no longer comes from the first loader, in construction order, that has the path", an.Str(rhs))
+						} else if p.FieldKey(info, call.Args[0]) == "multi.Multi.loaders" {
 							c.OK("C19.multi", key+"/append", ps.Pos(), "new loaders are appended after the existing ones")
 						} else {
 							c.Bad("C19.multi", key+"/append", ps.Pos(), nil, "the loader list is rebuilt as %s: existing loaders no longer come first (construction order is not preserved)", an.Str(rhs))
